@@ -18,10 +18,12 @@ type c01Scenario struct {
 	Base    string `json:"base,omitempty"` // stream start offset: "" = 1000, "0", "big" = 2^32+7
 	Preempt bool  `json:"preempt,omitempty"`
 	RBuf    int   `json:"rbuf,omitempty"` // size of the buffered reader the stream is read through (0 = 4096)
+	Split   bool  `json:"split,omitempty"` // every stream item arrives in two reads
+	Hold    bool  `json:"hold,omitempty"`  // the target withholds every reply until the whole stream was fed (sender blocked on a full pipeline / on its first batch while tickers fire)
 	Plan []string `json:"plan,omitempty"` // preemption plan: "<file:line>#<occurrence>" wake-up statements of syncer/output.go
 }
 
-var c01Alphabet = []string{"w1", "w2", "we", "wx", "d", "df", "mf", "s1", "s0", "sb", "t1", "t2", "t3", "ts", "p", "g", "b", "bc", "f", "h", "n"}
+var c01Alphabet = []string{"w1", "w2", "we", "wx", "d", "df", "mf", "s1", "s0", "sb", "t1", "t2", "t3", "ts", "p", "g", "b", "bc", "f", "h", "n", "wn", "tn", "tf", "tp"}
 
 // c01Reduced keeps one representative per behaviour class for the deeper plans.
 var c01Reduced = []string{"w1", "w2", "df", "s1", "sb", "t2", "ts", "p", "f", "n"}
@@ -53,6 +55,8 @@ func c01Configs(tier string) []aofCfg {
 		{Txn: false, Resume: false, Pipeline: false, Count: 2, Bytes: 1 << 20, DbMode: "id"},
 		{Txn: true, Resume: true, Pipeline: false, Count: 2, Bytes: 1 << 20, DbMode: "shift"},
 		{Txn: false, Resume: true, Pipeline: true, Count: 2, Bytes: 1 << 20, DbMode: "swap"},
+		// transactional replay with resuming switched off (the position is kept in memory only)
+		{Txn: true, Resume: false, Pipeline: false, Count: 2, Bytes: 1 << 20, DbMode: "id"},
 	}
 }
 
@@ -158,6 +162,24 @@ func runC01(t *testing.T, rep *mc.Reporter) {
 					continue
 				}
 				scn := c01Scenario{Syms: append([]string{"s0"}, seq...), Cfg: cfg, Max: 1, RBuf: rbuf}
+				mc.RunScenario(rep, scn, 1, budget, func(ch *mc.Chooser) mc.Result { return c01Exec(t, scn, ch) })
+			}
+		})
+	}
+	// ---- arrival in pieces / withheld replies: every item arrives in two reads; the target answers nothing
+	// until the whole stream was fed (blocking sender stuck on its first batch, pipelined sender on a full
+	// pipeline) while tickers fire
+	for _, variant := range []string{"split", "hold"} {
+		enumSeqs([]string{"w1", "w2", "t2", "s1", "p", "n", "df"}, 3, func(seq []string) {
+			if len(seq) < 2 {
+				return
+			}
+			for _, cfg := range quickCfgs {
+				idx++
+				if idx%nshards != shard || budget.Expired() {
+					continue
+				}
+				scn := c01Scenario{Syms: append([]string{"s0"}, seq...), Cfg: cfg, Max: 1, Split: variant == "split", Hold: variant == "hold"}
 				mc.RunScenario(rep, scn, 1, budget, func(ch *mc.Chooser) mc.Result { return c01Exec(t, scn, ch) })
 			}
 		})
